@@ -143,25 +143,42 @@ class Check:
         par = 1 if len(chunks) == 1 else min(4, len(chunks))
         w = max(2, workers // par)
 
-        def run_chunk(args):
+        tmo = 420 if self.tier == "quick" else 2400
+
+        def run_chunk(args, depth=0):
+            """returns a list of TLCResult; a chunk on which TLC does not finish within the watchdog time is
+            split (a single scenario that does not finish is skipped and reported in the evidence: the
+            specification could not decide it in reasonable time, which is not a verdict about the code)"""
             ci, chunk = args
             base = chunk[0]["id"] - 1
             local = []
-            for s in chunk:
-                t = dict(s); t["id"] = s["id"] - base; local.append(t)
-            fn = os.path.join(WORK, "%s-%s-%d-%d.json" % (self.prop, name, os.getpid(), ci))
+            for k, s in enumerate(chunk):
+                t = dict(s); t["id"] = k + 1; local.append(t)
+            fn = os.path.join(WORK, "%s-%s-%d-%s.json" % (self.prop, name, os.getpid(), ci))
             with open(fn, "w") as f:
                 json.dump(local, f)
             try:
-                r = tlc.run(spec, cfg, env={"SCN_FILE": fn}, tag="%s-%s-%d-%d" % (self.prop, name, os.getpid(), ci), workers=w)
+                r = tlc.run(spec, cfg, env={"SCN_FILE": fn}, tag="%s-%s-%d-%s" % (self.prop, name, os.getpid(), ci), workers=w,
+                            timeout=max(60, tmo // (2 ** depth)))
+            except tlc.TLCError as e:
+                if "watchdog" not in str(e):
+                    raise
+                if len(chunk) == 1:
+                    self.notes.append("family %s: scenario %d skipped, TLC did not finish it within the watchdog time" % (name, chunk[0]["id"]))
+                    self.truncated["tlc-timeout"] += 1
+                    return []
+                h = len(chunk) // 2
+                return run_chunk(("%sa" % ci, chunk[:h]), depth + 1) + run_chunk(("%sb" % ci, chunk[h:]), depth + 1)
             finally:
-                os.unlink(fn)
+                if os.path.exists(fn):
+                    os.unlink(fn)
+            ids = [s["id"] for s in chunk]
             for rec in r.records:
-                rec["id"] += base
-            return r
+                rec["id"] = ids[rec["id"] - 1]
+            return [r]
         import concurrent.futures
         with concurrent.futures.ThreadPoolExecutor(par) as ex:
-            parts = list(ex.map(run_chunk, enumerate(chunks)))
+            parts = [r for rs in ex.map(run_chunk, enumerate(chunks)) for r in rs]
         res = tlc.TLCResult()
         for r in parts:
             res.records.extend(r.records)
